@@ -11,6 +11,10 @@ NOTE = ("Trusted base: Go type checker, go/cfg, go/ssa and VTA of golang.org/x/t
         "current source; it does NOT decide the run-time behaviour (row sets, values, schedules) - see DESIGN.md section 4 'Not decided'.")
 
 CLAIMED = {
+ "C09": ("4 (C09)", "custom static analysis: go/cfg guard-fact dominance with call-induced kills + symbolic path enumeration of the guard function + sibling check of all WHERE-adding sites",
+   "Static, all-paths: every UPDATE/DELETE driver call is dominated by the missing-WHERE guard and by an Error == nil test made after it; path enumeration over the guard shows it raises ErrMissingWhereClause on some path and that every non-raising path carries AllowGlobalUpdate, an earlier error, or 'WHERE present and (soft-delete marker absent or >1 expressions)'; every WHERE clause added from user conditions or model keys is guarded by non-emptiness / non-zero key and BuildCondition yields nothing for empty input; the soft-delete filter is always paired with the marker the guard reads. Necessary conditions only: whether a user condition is effective at run time is not decided."),
+ "C18": ("4 (C18)", "custom static analysis: SSA backward value-origin of every driver-call context argument with recursive caller check, taint of context.Background/TODO results, who-writes Statement.Context, Session-literal check",
+   "Static, all-sites: the context argument of every driver call derives (SSA value origin) from Statement.Context of the statement whose pool is called or from a merely forwarded context parameter whose callers do; context.Background/TODO results flow only into logger calls and Open's root statement; every Statement literal with a pool takes its parent's Context and the only other writer of Statement.Context is Session storing a non-nil Session.Context; library Session literals that set Context use the context of the handle they derive from; no context-less database/sql method is called. That database/sql honours a cancelled context is assumed."),
  "C19": ("4 (C19)", "custom static analysis: go/cfg guard-fact dominance + SSA value-origin + who-may-call over resolved callees",
    "Static, all-paths: every statement/prepare driver call in a registered executor is dominated by !DryRun; statement driver calls exist only in executors, pool wrappers and the transaction API; each executor sends exactly Statement.SQL.String()/Statement.Vars of its own statement; Execute keeps SQL/Vars after a dry run; sub-queries render on a DryRun session; ToSQL's session sets DryRun+SkipDefaultTransaction, Session propagates them and the implicit-transaction callbacks honour SkipDefaultTransaction. Necessary conditions only: equality of dry-run and executed text for data-dependent statements is not decided."),
 }
